@@ -127,3 +127,24 @@ def const_args(body, site):
             if x[0] == "const" and x[1] in ("str", "char"):
                 out.append(x[2] if x[1] == "str" else chr(x[2]))
     return out
+
+
+def whole_value_stores(prog, type_name, crates=("pasfmt",)):
+    """Program points that overwrite a whole value of ADT `type_name` through a reference / element place (`*r = v`, `v[i] = x`) or hand a
+    `&mut T` to a function (swap/replace/take/clone_from ...): [(body, where, what)].  Field stores are not reported."""
+    short_ty = type_name.split("::")[-1]
+    out = []
+    for b in prog.bodies.values():
+        if not any(b.crate.startswith(c) for c in crates):
+            continue
+        for bb, i, s in b.stmts():
+            if s["k"] == "assign" and s["dst"]["p"] and s["dst"]["p"][-1]["k"] in ("deref", "index", "constant_index"):
+                ty = b.locals[s["dst"]["l"]]["ty"]
+                inner = ty.replace("&mut ", "").replace("&", "").strip()
+                if inner == type_name or inner.endswith("::" + short_ty) or inner == short_ty or ("<" + type_name + ">") in ty or ("[" + type_name + "]") in ty:
+                    out.append((b, "%s:%d" % (b.file, abs(s.get("line", 0))), "store `*place = value`"))
+        for c in b.calls():
+            for a in c.args:
+                if a["k"] in ("copy", "move") and not a["place"]["p"] and b.locals[a["place"]["l"]]["ty"] in ("&mut " + type_name,):
+                    out.append((b, c.where(), "call %s(&mut %s)" % ((c.callee or "?"), short_ty)))
+    return out
